@@ -1,7 +1,503 @@
-// Engine for the application-layer codec (C09, C10); filled in by a later step.
-use super::Script;
+// Engine `app` (C09, also used by C10/C01): the PRODUCTION application-layer codec.
+//
+//   parse <req|resp> <hex>      ParsedFragment::parse with the real ParseOptions, header validation
+//                               (to_request / to_response), then EVERY object header is iterated and a
+//                               canonical listing is printed
+//   display <level> <hex>       runs the Display/format paths at the given decode level (panic hunting)
+//   encode <builder> ...        the master's request builders (master/request.rs + app/format/write.rs) and
+//                               the outstation's writers; prints `bytes <hex>`, then the listing of `parse`
+//                               applied to those bytes
+//
+// Canonical listing (decimal numbers, lowercase hex, `-` = empty / absent):
+//   frag <function> <fir><fin><con><uns> <seq> <iin1> <iin2>     | hdr-err insufficient | hdr-err unknown-function <seq> <code>
+//   req ok | req err <kind>        resp ok | resp err <kind>
+//   obj-err <kind> [args]          (the validating first pass failed: no header is listed)
+//   h <group> <var> <qualifier> [start stop | count]
+//   n <objects>                    number of objects the iterator yielded
+//   o <index|-> <hex>              one object: its index and its encoding (T::write of what T::read produced;
+//                                  bits and double bits as one byte 00/01 and 00..03)
+//                                  with more than LIST_LIMIT objects only the first and last EDGE are listed,
+//                                  followed by `sum <checksum over all objects>`
+//   a <set> <var> <type> <value>   device attribute;   f <var> <lengths...>   free-format object
+//   end
+
+use super::{hex, unhex, Script};
+use crate::app::attr::{AttrParseError, AttrValue, Attribute, FloatType};
+use crate::app::format::write::{start_request, HeaderWriter};
+use crate::app::gen::count::CountVariation;
+use crate::app::gen::prefixed::PrefixedVariation;
+use crate::app::gen::ranged::RangedVariation;
+use crate::app::parse::bit::{BitSequence, DoubleBitSequence};
+use crate::app::parse::bytes::{PrefixedBytesSequence, RangedBytesSequence};
+use crate::app::parse::count::CountSequence;
+use crate::app::parse::free_format::FreeFormatVariation;
+use crate::app::parse::options::ParseOptions;
+use crate::app::parse::parser::{HeaderDetails, ObjectHeader, ParsedFragment};
+use crate::app::parse::prefix::Prefix;
+use crate::app::parse::range::RangedSequence;
+use crate::app::parse::traits::{FixedSize, FixedSizeVariation, Index};
+use crate::app::variations::*;
+use crate::app::{
+    ControlField, FunctionCode, HeaderParseError, ObjectParseError, RequestValidationError,
+    ResponseValidationError, Sequence,
+};
+use crate::decode::AppDecodeLevel;
+use scursor::{ReadCursor, WriteCursor};
+
+const LIST_LIMIT: usize = 300;
+const EDGE: usize = 4;
+const SUM_MOD: u64 = 4294967291;
+
+type Obj = (Option<u16>, Vec<u8>);
+
+fn enc<T: FixedSize>(x: &T) -> Vec<u8> {
+    let mut buf = [0u8; 300];
+    let mut cursor = WriteCursor::new(&mut buf);
+    x.write(&mut cursor).expect("object larger than 300 bytes");
+    cursor.written().to_vec()
+}
+
+fn ranged<T: FixedSize>(seq: &RangedSequence<T>) -> Vec<Obj> {
+    seq.iter().map(|(v, i)| (Some(i), enc(&v))).collect()
+}
+
+fn counted<T: FixedSize>(seq: &CountSequence<T>) -> Vec<Obj> {
+    seq.iter().map(|v| (None, enc(&v))).collect()
+}
+
+fn prefixed<I: Index, V: FixedSizeVariation>(seq: &CountSequence<Prefix<I, V>>) -> Vec<Obj> {
+    seq.iter()
+        .map(|p| (Some(p.index.widen_to_u16()), enc(&p.value)))
+        .collect()
+}
+
+fn bits(seq: &BitSequence) -> Vec<Obj> {
+    seq.iter().map(|(v, i)| (Some(i), vec![v as u8])).collect()
+}
+
+fn dbits(seq: &DoubleBitSequence) -> Vec<Obj> {
+    seq.iter()
+        .map(|(v, i)| (Some(i), vec![v.to_byte()]))
+        .collect()
+}
+
+fn rbytes(seq: &RangedBytesSequence) -> Vec<Obj> {
+    seq.iter().map(|(b, i)| (Some(i), b.to_vec())).collect()
+}
+
+fn pbytes<I: Index>(seq: &PrefixedBytesSequence<I>) -> Vec<Obj> {
+    seq.iter()
+        .map(|(b, i)| (Some(i.widen_to_u16()), b.to_vec()))
+        .collect()
+}
+
+fn checksum(objs: &[Obj]) -> u64 {
+    let mut h: u64 = 0;
+    for (idx, data) in objs {
+        let i = match idx {
+            Some(i) => *i as u64 + 1,
+            None => 0,
+        };
+        h = (h * 31 + i) % SUM_MOD;
+        for b in data {
+            h = (h * 31 + *b as u64 + 1) % SUM_MOD;
+        }
+    }
+    h
+}
+
+fn list_objs(objs: &[Obj], obs: &mut Vec<String>) {
+    obs.push(format!("n {}", objs.len()));
+    let line = |o: &Obj| match o.0 {
+        Some(i) => format!("o {} {}", i, hex(&o.1)),
+        None => format!("o - {}", hex(&o.1)),
+    };
+    if objs.len() <= LIST_LIMIT {
+        for o in objs {
+            obs.push(line(o));
+        }
+    } else {
+        for o in &objs[..EDGE] {
+            obs.push(line(o));
+        }
+        for o in &objs[objs.len() - EDGE..] {
+            obs.push(line(o));
+        }
+        obs.push(format!("sum {}", checksum(objs)));
+    }
+}
+
+fn attr_err(e: &AttrParseError) -> String {
+    match e {
+        AttrParseError::ReadError => "read".to_string(),
+        AttrParseError::UnknownDataType(x) => format!("unknown-type {}", x),
+        AttrParseError::BadIntegerLength(x) => format!("int-length {}", x),
+        AttrParseError::BadFloatLength(x) => format!("float-length {}", x),
+        AttrParseError::BadTimeLength(x) => format!("time-length {}", x),
+        AttrParseError::BadAttrListLength(x) => format!("list-length {}", x),
+        AttrParseError::BadVisibleString(_) => "vstr".to_string(),
+        AttrParseError::SetIdNotU8(x) => format!("set-id {}", x),
+        AttrParseError::CountNotOne(x) => format!("count {}", x),
+    }
+}
+
+pub(crate) fn obj_err(e: &ObjectParseError) -> String {
+    match e {
+        ObjectParseError::UnknownGroupVariation(g, v) => format!("unknown-gv {} {}", g, v),
+        ObjectParseError::UnknownQualifier(q) => format!("unknown-qual {}", q),
+        ObjectParseError::InsufficientBytes => "insufficient".to_string(),
+        ObjectParseError::InvalidRange(a, b) => format!("invalid-range {} {}", a, b),
+        ObjectParseError::InvalidQualifierForVariation(v, q) => {
+            let (g, var) = v.to_group_and_var();
+            format!("invalid-qual {} {} {}", g, var, q.as_u8())
+        }
+        ObjectParseError::UnsupportedQualifierCode(q) => format!("unsupported-qual {}", q.as_u8()),
+        ObjectParseError::UnsupportedFreeFormatCount(c) => format!("free-count {}", c),
+        ObjectParseError::ZeroLengthOctetData => "zero-length".to_string(),
+        ObjectParseError::BadAttribute(e) => format!("bad-attr {}", attr_err(e)),
+        ObjectParseError::BadEncoding => "bad-encoding".to_string(),
+    }
+}
+
+fn list_attr(a: &Attribute, obs: &mut Vec<String>) {
+    let value = match &a.value {
+        AttrValue::VisibleString(s) => format!("vstr {}", hex(s.as_bytes())),
+        AttrValue::UnsignedInt(x) => format!("uint {}", x),
+        AttrValue::SignedInt(x) => format!("int {}", *x as u32),
+        AttrValue::FloatingPoint(FloatType::F32(x)) => format!("f32 {}", x.to_bits()),
+        AttrValue::FloatingPoint(FloatType::F64(x)) => format!("f64 {}", x.to_bits()),
+        AttrValue::OctetString(b) => format!("ostr {}", hex(b)),
+        AttrValue::BitString(b) => format!("bstr {}", hex(b)),
+        AttrValue::Dnp3Time(t) => format!("time {}", t.raw_value()),
+        AttrValue::AttrList(l) => {
+            let items: Vec<u8> = l
+                .iter()
+                .flat_map(|x| [x.variation, x.properties.is_writable() as u8])
+                .collect();
+            format!("list {}", hex(&items))
+        }
+    };
+    obs.push(format!("a {} {} {}", a.set.value(), a.variation, value));
+}
+
+fn list_free(v: &FreeFormatVariation, obs: &mut Vec<String>) {
+    obs.push(match v {
+        FreeFormatVariation::Group70Var2(x) => {
+            format!("f 2 {} {}", x.user_name.len(), x.password.len())
+        }
+        FreeFormatVariation::Group70Var3(x) => format!("f 3 {}", x.file_name.len()),
+        FreeFormatVariation::Group70Var4(x) => format!("f 4 {}", x.text.len()),
+        FreeFormatVariation::Group70Var5(x) => format!("f 5 {}", x.file_data.len()),
+        FreeFormatVariation::Group70Var6(x) => format!("f 6 {}", x.text.len()),
+        FreeFormatVariation::Group70Var7(x) => format!("f 7 {}", x.file_name.len()),
+        FreeFormatVariation::Group70Var8(x) => format!("f 8 {}", x.file_specification.len()),
+    });
+}
+
+macro_rules! ranged_fixed {
+    ($x:expr, $obs:expr; $($v:ident),*) => {
+        match $x {
+            RangedVariation::Group0(_, Some(a)) => list_attr(a, $obs),
+            RangedVariation::Group1Var1(s) | RangedVariation::Group10Var1(s) | RangedVariation::Group80Var1(s) => list_objs(&bits(s), $obs),
+            RangedVariation::Group3Var1(s) => list_objs(&dbits(s), $obs),
+            RangedVariation::Group110VarX(_, s) => list_objs(&rbytes(s), $obs),
+            $(RangedVariation::$v(s) => list_objs(&ranged(s), $obs),)*
+            RangedVariation::Group0Var254 | RangedVariation::Group0(_, None)
+            | RangedVariation::Group1Var0 | RangedVariation::Group3Var0 | RangedVariation::Group10Var0
+            | RangedVariation::Group20Var0 | RangedVariation::Group21Var0 | RangedVariation::Group30Var0
+            | RangedVariation::Group31Var0 | RangedVariation::Group40Var0 | RangedVariation::Group102Var0
+            | RangedVariation::Group110Var0 => list_objs(&[], $obs),
+        }
+    };
+}
+
+fn list_ranged(x: &RangedVariation, obs: &mut Vec<String>) {
+    ranged_fixed!(x, obs;
+        Group1Var2, Group3Var2, Group10Var2, Group20Var1, Group20Var2, Group20Var5, Group20Var6,
+        Group21Var1, Group21Var2, Group21Var5, Group21Var6, Group21Var9, Group21Var10,
+        Group30Var1, Group30Var2, Group30Var3, Group30Var4, Group30Var5, Group30Var6,
+        Group31Var1, Group31Var2, Group31Var3, Group31Var4, Group31Var5, Group31Var6, Group31Var7, Group31Var8,
+        Group34Var1, Group34Var2, Group34Var3, Group40Var1, Group40Var2, Group40Var3, Group40Var4,
+        Group102Var1);
+}
+
+fn list_count(x: &CountVariation, obs: &mut Vec<String>) {
+    match x {
+        CountVariation::Group50Var1(s) => list_objs(&counted(s), obs),
+        CountVariation::Group50Var2(s) => list_objs(&counted(s), obs),
+        CountVariation::Group50Var3(s) => list_objs(&counted(s), obs),
+        CountVariation::Group50Var4(s) => list_objs(&counted(s), obs),
+        CountVariation::Group51Var1(s) => list_objs(&counted(s), obs),
+        CountVariation::Group51Var2(s) => list_objs(&counted(s), obs),
+        CountVariation::Group52Var1(s) => list_objs(&counted(s), obs),
+        CountVariation::Group52Var2(s) => list_objs(&counted(s), obs),
+        // every other count variation carries no object data
+        _ => list_objs(&[], obs),
+    }
+}
+
+macro_rules! prefixed_fixed {
+    ($x:expr, $obs:expr; $($v:ident),*) => {
+        match $x {
+            PrefixedVariation::Group0(a) => list_attr(a, $obs),
+            PrefixedVariation::Group111VarX(_, s) => list_objs(&pbytes(s), $obs),
+            $(PrefixedVariation::$v(s) => list_objs(&prefixed(s), $obs),)*
+        }
+    };
+}
+
+fn list_prefixed<I: Index + std::fmt::Display>(x: &PrefixedVariation<I>, obs: &mut Vec<String>) {
+    prefixed_fixed!(x, obs;
+        Group2Var1, Group2Var2, Group2Var3, Group4Var1, Group4Var2, Group4Var3, Group11Var1, Group11Var2,
+        Group12Var1, Group13Var1, Group13Var2, Group22Var1, Group22Var2, Group22Var5, Group22Var6,
+        Group23Var1, Group23Var2, Group23Var5, Group23Var6,
+        Group32Var1, Group32Var2, Group32Var3, Group32Var4, Group32Var5, Group32Var6, Group32Var7, Group32Var8,
+        Group33Var1, Group33Var2, Group33Var3, Group33Var4, Group33Var5, Group33Var6, Group33Var7, Group33Var8,
+        Group34Var1, Group34Var2, Group34Var3, Group41Var1, Group41Var2, Group41Var3, Group41Var4,
+        Group42Var1, Group42Var2, Group42Var3, Group42Var4, Group42Var5, Group42Var6, Group42Var7, Group42Var8,
+        Group43Var1, Group43Var2, Group43Var3, Group43Var4, Group43Var5, Group43Var6, Group43Var7, Group43Var8);
+}
+
+fn list_header(h: &ObjectHeader, obs: &mut Vec<String>) {
+    let (g, v) = h.variation.to_group_and_var();
+    let q = h.details.qualifier().as_u8();
+    match &h.details {
+        HeaderDetails::AllObjects(_) => {
+            obs.push(format!("h {} {} {}", g, v, q));
+            list_objs(&[], obs);
+        }
+        HeaderDetails::OneByteStartStop(s1, s2, x) => {
+            obs.push(format!("h {} {} {} {} {}", g, v, q, s1, s2));
+            list_ranged(x, obs);
+        }
+        HeaderDetails::TwoByteStartStop(s1, s2, x) => {
+            obs.push(format!("h {} {} {} {} {}", g, v, q, s1, s2));
+            list_ranged(x, obs);
+        }
+        HeaderDetails::OneByteCount(c, x) => {
+            obs.push(format!("h {} {} {} {}", g, v, q, c));
+            list_count(x, obs);
+        }
+        HeaderDetails::TwoByteCount(c, x) => {
+            obs.push(format!("h {} {} {} {}", g, v, q, c));
+            list_count(x, obs);
+        }
+        HeaderDetails::OneByteCountAndPrefix(c, x) => {
+            obs.push(format!("h {} {} {} {}", g, v, q, c));
+            list_prefixed(x, obs);
+        }
+        HeaderDetails::TwoByteCountAndPrefix(c, x) => {
+            obs.push(format!("h {} {} {} {}", g, v, q, c));
+            list_prefixed(x, obs);
+        }
+        HeaderDetails::TwoByteFreeFormat(c, x) => {
+            obs.push(format!("h {} {} {} {}", g, v, q, c));
+            list_free(x, obs);
+        }
+    }
+}
+
+fn options(script: &Script) -> ParseOptions {
+    ParseOptions {
+        parse_zero_length_strings: script.cfg_u64("zls", 0) != 0,
+    }
+}
+
+fn b(x: bool) -> char {
+    if x {
+        '1'
+    } else {
+        '0'
+    }
+}
+
+/// the `parse` op: header, header validation for the given direction, then every object header
+pub(crate) fn parse_and_list(opts: ParseOptions, mode: &str, data: &[u8], obs: &mut Vec<String>) {
+    let fragment = match ParsedFragment::parse(opts, data) {
+        Err(HeaderParseError::InsufficientBytes) => {
+            obs.push("hdr-err insufficient".to_string());
+            obs.push("end".to_string());
+            return;
+        }
+        Err(HeaderParseError::UnknownFunction(seq, code)) => {
+            obs.push(format!("hdr-err unknown-function {} {}", seq.value(), code));
+            obs.push("end".to_string());
+            return;
+        }
+        Ok(x) => x,
+    };
+    let c = fragment.control;
+    let iin = match fragment.iin {
+        Some(iin) => format!("{} {}", iin.iin1.value, iin.iin2.value),
+        None => "-".to_string(),
+    };
+    obs.push(format!(
+        "frag {} {}{}{}{} {} {}",
+        fragment.function.as_u8(),
+        b(c.fir),
+        b(c.fin),
+        b(c.con),
+        b(c.uns),
+        c.seq.value(),
+        iin
+    ));
+    match mode {
+        "req" => obs.push(match fragment.to_request() {
+            Ok(_) => "req ok".to_string(),
+            Err(RequestValidationError::UnexpectedFunction(_)) => "req err unexpected-function".to_string(),
+            Err(RequestValidationError::NonFirFin) => "req err non-fir-fin".to_string(),
+            Err(RequestValidationError::UnexpectedUnsBit(_)) => "req err unexpected-uns".to_string(),
+        }),
+        "resp" => obs.push(match fragment.to_response() {
+            Ok(_) => "resp ok".to_string(),
+            Err(ResponseValidationError::UnexpectedFunction(_)) => "resp err unexpected-function".to_string(),
+            Err(ResponseValidationError::SolicitedResponseWithUnsBit) => "resp err sol-with-uns".to_string(),
+            Err(ResponseValidationError::UnsolicitedResponseWithoutUnsBit) => "resp err unsol-without-uns".to_string(),
+            Err(ResponseValidationError::UnsolicitedResponseWithoutFirAndFin) => "resp err unsol-without-firfin".to_string(),
+        }),
+        x => panic!("bad parse mode {}", x),
+    }
+    match fragment.objects {
+        Err(e) => obs.push(format!("obj-err {}", obj_err(&e))),
+        Ok(headers) => {
+            for h in headers.iter() {
+                list_header(&h, obs);
+            }
+        }
+    }
+    obs.push("end".to_string());
+}
+
+fn level(x: &str) -> AppDecodeLevel {
+    match x {
+        "0" => AppDecodeLevel::Nothing,
+        "1" => AppDecodeLevel::Header,
+        "2" => AppDecodeLevel::ObjectHeaders,
+        "3" => AppDecodeLevel::ObjectValues,
+        _ => panic!("bad decode level {}", x),
+    }
+}
+
+fn variation(g: &str, v: &str) -> Variation {
+    Variation::lookup(g.parse().expect("group"), v.parse().expect("variation")).expect("unknown variation in encode op")
+}
+
+fn function(x: &str) -> FunctionCode {
+    FunctionCode::from(x.parse().expect("function code")).expect("unknown function code in encode op")
+}
+
+fn items<V: FixedSize, I: Copy>(args: &[String], index: impl Fn(u16) -> I) -> Vec<(V, I)> {
+    // each item is <index>:<hex of the object>; the object is built with the production `read`
+    args.iter()
+        .map(|a| {
+            let (i, h) = a.split_once(':').expect("item without ':'");
+            let bytes = unhex(h);
+            let mut cursor = ReadCursor::new(&bytes);
+            let v = V::read(&mut cursor).expect("short object in encode op");
+            assert!(cursor.is_empty(), "long object in encode op");
+            (v, index(i.parse().expect("index")))
+        })
+        .collect()
+}
+
+/// the command headers of master/request.rs: `write_prefixed_items` through CommandHeader::write
+fn command_header(gv: &str, prefix: &str, args: &[String]) -> crate::master::CommandHeader {
+    use crate::master::CommandHeader as H;
+    let u8i = |x: u16| -> u8 { u8::try_from(x).expect("index does not fit the 8-bit prefix") };
+    let u16i = |x: u16| -> u16 { x };
+    match (gv, prefix) {
+        ("g12v1", "8") => H::G12V1U8(items(args, u8i)),
+        ("g41v1", "8") => H::G41V1U8(items(args, u8i)),
+        ("g41v2", "8") => H::G41V2U8(items(args, u8i)),
+        ("g41v3", "8") => H::G41V3U8(items(args, u8i)),
+        ("g41v4", "8") => H::G41V4U8(items(args, u8i)),
+        ("g12v1", "16") => H::G12V1U16(items(args, u16i)),
+        ("g41v1", "16") => H::G41V1U16(items(args, u16i)),
+        ("g41v2", "16") => H::G41V2U16(items(args, u16i)),
+        ("g41v3", "16") => H::G41V3U16(items(args, u16i)),
+        ("g41v4", "16") => H::G41V4U16(items(args, u16i)),
+        _ => panic!("bad command header {} {}", gv, prefix),
+    }
+}
+
+/// `encode <seq> <function> <header>...` where headers are separated by `/`:
+///    all <g> <v> | range8 <g> <v> <start> <stop> | range16 <g> <v> <start> <stop> | count8 <g> <v> <n> |
+///    count16 <g> <v> <n> | classes <c1><c2><c3><c0> | cmd <gNvM> <8|16> <index>:<hex>... |
+///    one <gNvM> <hex>   (write_count_of_one) | restart (write_clear_restart)
+/// built with the production HeaderWriter through the master's request types where they exist
+fn encode(op: &[String], capacity: usize) -> Result<Vec<u8>, String> {
+    use crate::master::{Classes, EventClasses, ReadHeader};
+    let seq = Sequence::new(op[1].parse().expect("seq"));
+    let mut buffer = vec![0u8; capacity];
+    let mut cursor = WriteCursor::new(&mut buffer);
+    let mut writer = start_request(ControlField::request(seq), function(&op[2]), &mut cursor).map_err(|e| format!("{:?}", e))?;
+    for h in op[3..].split(|x| x == "/") {
+        if h.is_empty() {
+            continue;
+        }
+        let res = match h[0].as_str() {
+            "all" => ReadHeader::all_objects(variation(&h[1], &h[2])).format(&mut writer),
+            "range8" => ReadHeader::one_byte_range(variation(&h[1], &h[2]), h[3].parse().unwrap(), h[4].parse().unwrap()).format(&mut writer),
+            "range16" => ReadHeader::two_byte_range(variation(&h[1], &h[2]), h[3].parse().unwrap(), h[4].parse().unwrap()).format(&mut writer),
+            "count8" => ReadHeader::one_byte_limited_count(variation(&h[1], &h[2]), h[3].parse().unwrap()).format(&mut writer),
+            "count16" => ReadHeader::two_byte_limited_count(variation(&h[1], &h[2]), h[3].parse().unwrap()).format(&mut writer),
+            "classes" => {
+                let c: Vec<bool> = h[1].chars().map(|x| x == '1').collect();
+                Classes::new(c[3], EventClasses::new(c[0], c[1], c[2])).write(&mut writer)
+            }
+            "cmd" => command_header(&h[1], &h[2], &h[3..]).write(&mut writer),
+            "one" => {
+                let bytes = unhex(&h[2]);
+                let mut rc = ReadCursor::new(&bytes);
+                match h[1].as_str() {
+                    "g50v1" => writer.write_count_of_one(Group50Var1::read(&mut rc).unwrap()),
+                    "g50v2" => writer.write_count_of_one(Group50Var2::read(&mut rc).unwrap()),
+                    "g50v3" => writer.write_count_of_one(Group50Var3::read(&mut rc).unwrap()),
+                    "g52v2" => writer.write_count_of_one(Group52Var2::read(&mut rc).unwrap()),
+                    x => panic!("bad count-of-one variation {}", x),
+                }
+            }
+            "restart" => writer.write_clear_restart(),
+            x => panic!("bad encode header {}", x),
+        };
+        res.map_err(|e| match e {
+            scursor::WriteError::NumericOverflow => "numeric-overflow".to_string(),
+            scursor::WriteError::WriteOverflow { .. } => "write-overflow".to_string(),
+            scursor::WriteError::BadSeek { .. } => "bad-seek".to_string(),
+        })?;
+    }
+    Ok(cursor.written().to_vec())
+}
 
 pub(crate) async fn run_app(script: &Script, obs: &mut Vec<String>) {
-    let _ = script;
-    obs.push("unimplemented".to_string());
+    let opts = options(script);
+    let capacity = script.cfg_u64("cap", 2048) as usize;
+    for op in &script.ops {
+        match op[0].as_str() {
+            "parse" => parse_and_list(opts, &op[1], &unhex(&op[2]), obs),
+            "display" => {
+                let data = unhex(&op[2]);
+                match ParsedFragment::parse(opts, &data) {
+                    Ok(fragment) => {
+                        let text = format!("{}", fragment.display(level(&op[1])));
+                        std::hint::black_box(text.len());
+                        obs.push(format!("display {} ok", op[1]));
+                    }
+                    Err(_) => obs.push(format!("display {} hdr-err", op[1])),
+                }
+                obs.push("end".to_string());
+            }
+            "encode" => match encode(op, capacity) {
+                Ok(bytes) => {
+                    obs.push(format!("bytes {}", hex(&bytes)));
+                    parse_and_list(opts, "req", &bytes, obs);
+                }
+                Err(e) => {
+                    obs.push(format!("encode-err {}", e));
+                    obs.push("end".to_string());
+                }
+            },
+            x => panic!("bad op {}", x),
+        }
+    }
 }
